@@ -19,7 +19,7 @@ def main():
     nontriv = 0
     for i in range(n):
         seed = run_seed(0, prop, tier, i)
-        case = mod.generate(random.Random(seed ^ 0x5EED), tier)
+        case = mod.generate(random.Random(seed ^ 0x5EED5EED), tier)
         tape = Tape(seed)
         out = mod.execute(case, tape)
         stats.update(out["stats"])
@@ -31,7 +31,7 @@ def main():
     dt = time.time() - t0
     print(f"{n} runs in {dt:.1f}s ({n/dt:.0f}/s) nontrivial={nontriv}")
     print(dict(stats))
-    for k, c in viol.most_common(30):
+    for k, c in viol.most_common():
         print(c, k)
     for k, (i, d) in first.items():
         print("FIRST", k, "run", i, d[:1500])
